@@ -40,6 +40,13 @@ func expandItems(s string) [][]byte {
 	return out
 }
 
+// scribble overwrites a buffer that was handed to the code under test and is now reused by its owner
+func scribble(b []byte) {
+	for i := range b {
+		b[i] ^= 0xa5
+	}
+}
+
 func gkey(s string) [gcs.KeySize]byte {
 	var k [gcs.KeySize]byte
 	copy(k[:], unhx(s))
@@ -98,7 +105,11 @@ func execGcs(c Case) string {
 	case "gcs": // gcs <key> <P> <M> <data> <queries>
 		key := gkey(a[0])
 		P, M := uint8(atoi(a[1])), atou(a[2])
-		f, err := gcs.BuildGCSFilter(P, M, key, expandItems(a[3]))
+		data := expandItems(a[3])
+		f, err := gcs.BuildGCSFilter(P, M, key, data)
+		for _, d := range data {
+			scribble(d)
+		}
 		if err != nil {
 			return gcsErr(err)
 		}
@@ -108,12 +119,15 @@ func execGcs(c Case) string {
 		out := filterObs(f) + " " + hx(nb) + " " + hx(pb) + " " + hx(npb) + queryObs(f, key, a[4])
 		// rebuilt from the serialisations
 		f2, err := gcs.FromNBytes(P, M, nb)
+		scribble(nb) // the caller's buffer is reused (a network read buffer): the rebuilt filter must not notice
 		if err != nil {
 			return out + " R " + gcsErr(err)
 		}
 		out += " R " + filterObs(f2) + queryObs(f2, key, a[4])
 		bb, _ := f.Bytes()
+		bb = append([]byte{}, bb...)
 		f3, err := gcs.FromBytes(f.N(), P, M, bb)
+		scribble(bb)
 		if err != nil {
 			return out + " R " + gcsErr(err)
 		}
@@ -123,11 +137,13 @@ func execGcs(c Case) string {
 		P, M := uint8(atoi(a[1])), atou(a[2])
 		var f *gcs.Filter
 		var err error
+		in := unhx(a[4])
 		if a[3] == "-" {
-			f, err = gcs.FromNBytes(P, M, unhx(a[4]))
+			f, err = gcs.FromNBytes(P, M, in)
 		} else {
-			f, err = gcs.FromBytes(uint32(atou(a[3])), P, M, unhx(a[4]))
+			f, err = gcs.FromBytes(uint32(atou(a[3])), P, M, in)
 		}
+		scribble(in)
 		if err != nil {
 			return gcsErr(err)
 		}
